@@ -126,6 +126,11 @@ var elKinds = []elKind{
 		variants: vs("{{ \"x\" | plus: 1 }}", "{{- 'x' | times: 2 -}}", "{{ 1 | plus: 'x' }}", "{% assign zq = 'x' | minus: 1 %}", "{{ 'x'\n | plus: 1 }}")},
 	{name: "type-error-range", phase: 'r', errKinds: []string{"typeErr"}, cause: "typeErr",
 		variants: vs("{% for zi in (1..zs) %}a{% endfor %}", "{% for zi in (zs..3) %}\na\n{% endfor %}", "{%- tablerow zi in (1..zs) -%}a{% endtablerow %}", "{% for zi in\n (1..zs) %}a{% else %}b{% endfor %}")},
+	// a render-time failure of the expression of an elsif/when clause: the innermost failing tag is the clause
+	{name: "clause-render-error", phase: 'r', errKinds: []string{"filterErr", "undefinedFilter", "typeErr"}, cause: "*nonnil",
+		variants: vs("{% if zf %}a@@{% elsif 1 | divided_by: 0 %}b{% endif %}", "{% if zf %}\na\n@@{% elsif 1 | zqfilter %}\nb\n{% endif %}", "{% case 1 %}\n{% when 2 %}x\n@@{% when (1..zs) %}\ny{% endcase %}",
+			"{% if zf %}\n\n{% elsif zf %}\n@@{%- elsif (1..zs) contains 1 -%}{% else %}\n{% endif %}", "{% unless zt %}\n{% else %}{% if zf %}\n\n@@{% elsif '%zz' | url_decode %}{% endif %}\n{% endunless %}",
+			"{% case zs %}\n@@{% when\n 'b', (zs..2) %}\ny{% else %}z{% endcase %}")},
 	{name: "strict-undefined", phase: 'r', strict: true, errKinds: []string{"strictUndefined"}, cause: "other:undefinedVariable",
 		variants: vs("{{ zqundef }}", "{{- zqundef -}}", "{{ zqundef.a }}", "{{\n zqundef }}", "{{ zn[9] }}")},
 	{name: "break-outside", phase: 'r', outside: true, errKinds: []string{"brk"}, cause: "brk",
@@ -527,6 +532,14 @@ func errlocCase(r *Run, cl string, cfg engineCfg, path string, start int, src st
 		want = []string{parts[2]}
 	}
 	viol := func(clause, detail string) {
+		if k.name == "clause-render-error" && clause == "line" {
+			// a known finding (known_findings.json): counted in full, but only a few are listed so that
+			// they cannot crowd other violations out of the bounded list
+			r.Count("known-finding:clause-render-error-line")
+			if r.Stats.Hist["known-finding:clause-render-error-line"] > 10 {
+				return
+			}
+		}
 		r.Violate("C07", clause, cl, fmt.Sprintf("%s at offset %d of %q (path %q, start line %d): %s", k.name, off, short(src, 400), path, start, detail))
 	}
 	switch {
@@ -575,6 +588,10 @@ func errlocCase(r *Run, cl string, cfg engineCfg, path string, start int, src st
 	case k.cause == "":
 	case k.cause == "none":
 		// Errorf-made errors: nothing was wrapped; a cause is not required (and not forbidden)
+	case k.cause == "*nonnil":
+		if ck == "none" {
+			viol("cause", "Cause() is nil although an evaluation error was wrapped; error: "+msg)
+		}
 	case k.cause == "*typeErr":
 		if ck != "typeErr" && !(strings.HasPrefix(ck, "filterErr:") && strings.HasSuffix(ck, ":typeErr")) {
 			viol("cause", fmt.Sprintf("Cause() is %s (%T), expected a TypeError (possibly inside a FilterError); error: %s", ck, se.Cause(), msg))
